@@ -1,14 +1,14 @@
 SPECIFICATION Spec
 CONSTANTS
   Writers <- W2
-  Subs <- S0
+  Subs <- S1
   Ids <- I1
   MaxV = 6
-  Programs <- ValPrograms
+  Programs <- SubCollPrograms
   SubKinds <- Kinds
-  InitStores <- ValStores
+  InitStores <- CollStores
   PublishAfterUnlock = FALSE
   CreatedRevalidated = TRUE
 VIEW ViewNoHist
-INVARIANTS TypeOK CommitValid EffectOnce LoserCodes
+INVARIANTS TypeOK CommitValid EffectOnce LoserCodes Converged
 CHECK_DEADLOCK FALSE
